@@ -115,7 +115,7 @@ PROPS = {
         level="exploration",
         technique="stateful simulation-based property testing: generated request / reference / async / observe / time-jump / teardown histories from up to 50 scripted peers against a libcoap server (and client) on a virtual network; event and handler log against a session model, typed-allocation table, ASan and LeakSanitizer as lifetime oracle",
         level_text="Generated histories of 3..40 operations, session_timeout and max_idle_sessions from the tape, virtual time jumps around and across the session timeout, teardown wherever the history ends.",
-        level_note="Trusted base: sim/sim.cc, sim/alloc.cc (ld --wrap of coap_malloc_type/coap_realloc_type/coap_free_type), the session model in props/C12.cc. UDP sessions only here; TCP session teardown is exercised by C05/C08, DTLS by C19.",
+        level_note="Trusted base: sim/sim.cc, sim/alloc.cc (ld --wrap of coap_malloc_type/coap_realloc_type/coap_free_type), the session model in props/C12.cc. A quarter of the cases use TCP connections (scenario C); in part of the cases block-wise transfers hang off the sessions and the virtual clock moves on inside library calls (tolerance 50 ms on 'deleted before its timeout'). DTLS sessions are C19's.",
         quick=rcl(12, 8000, 410),
         thorough=rcl(14, 100000, 410),
         **SIM_ALLOC,
@@ -124,7 +124,7 @@ PROPS = {
         level="exploration",
         technique="stateful simulation-based property testing: generated register / change / cancel / RST / withheld-ACK / handler-error / delete histories against a libcoap server on a virtual network; temporal invariants over the wire trace against a registration-entry model",
         level_text="Generated histories of 3..30 operations over 1..3 observable resources and 1..4 scripted observers with per-datagram loss, duplication and delay and virtual time jumps beyond the session timeout.",
-        level_note="Trusted base: sim/sim.cc, the entry model in props/C11.cc. Notifications larger than one block are covered through C09's Block2 machinery only for plain GET; TCP observers are not generated.",
+        level_note="Trusted base: sim/sim.cc, the entry model in props/C11.cc. Notifications larger than one block (Block2 on notifications, follow-up fetches, ETag consistency) are generated in about 40 % of the cases; TCP observers are not generated.",
         quick=rcl(12, 15000, 380),
         thorough=rcl(14, 120000, 380),
         **SIM,
@@ -134,7 +134,7 @@ PROPS = {
         technique="simulation-based property testing: libcoap client and server perform Block1/Block2 transfers over a virtual network with generated sizes, modes and per-datagram faults; byte-exact body / tiling / token / MTU / release-count oracle from handler logs and the wire trace",
         level_text="Generated body lengths (dense around multiples of every block size), block size negotiation by MTU / server limit / client request, single-body and per-block modes, CON and NON, "
                    "drop/duplicate/delay plans; every piece any handler obtains is compared byte for byte with the sender's keyed pseudo-random body.",
-        level_note="Trusted base: sim/sim.cc, handler bookkeeping in props/C09.cc. Q-Block (RFC 9177) is not enabled. 'Never silence' is checked for Confirmable transfers at bounded quiescence.",
+        level_note="Trusted base: sim/sim.cc, handler bookkeeping in props/C09.cc. Q-Block (RFC 9177) is not enabled. One case in eight is a scripted peer uploading two bodies to one resource at the same time (Request-Tag separation). 'Never silence' is checked for Confirmable transfers at bounded quiescence.",
         quick=rcl(12, 6000, 240),
         thorough=rcl(14, 120000, 240),
         **SIM,
@@ -184,7 +184,7 @@ PROPS = {
     "C06": dict(
         level="exploration",
         technique="simulation-based property testing: real coap_io_process on a virtual clock/network (ld --wrap), scripted peers and fault plans from a rapidcheck tape; trace oracle = reference retransmission schedule model; exhaustive drop-subset enumeration",
-        level_text="Generated loss/duplication/delay patterns, timer settings and PRNG draws; the world sleeps exactly as long as the library reports, so both the "
+        level_text="Generated loss/duplication/delay patterns, timer settings and PRNG draws, up to three sessions (also with coinciding message ids) in one send queue, optionally server sessions idling out beside it; the world sleeps exactly as long as the library reports, so both the "
                    "schedule (exact doubling, T in range, stop at ACK/RST, MAX_RETRANSMIT) and the reported wait are decided from the complete wire/callback trace. "
                    "The thorough tier enumerates all 1024 drop subsets of the first 10 datagrams for 6 timer settings.",
         level_note="Trusted base: sim/sim.cc (virtual sockets replace coap_socket_* of coap_io.c), ref/refcodec.h. Tolerance on T is the Q.6 fixed point representation only. "
